@@ -300,9 +300,7 @@ theorem confirmStep_users (txids : List TxId) (height : Nat) (acc : Tower × Lis
     · split
       · exact ⟨rfl, rfl⟩
       · split
-        · split
-          · simp [abort_mem, abort_db]
-          · split <;> exact ⟨rfl, rfl⟩
+        · split <;> exact ⟨rfl, rfl⟩
         · exact ⟨rfl, rfl⟩
 
 theorem checkConfirmations_users (s : Tower) (txids : List TxId) (height : Nat) :
